@@ -368,6 +368,147 @@ func TestC13ConcurrentReaders(t *testing.T) {
 }
 
 // ---------------------------------------------------------------------------
+// 3b. concurrent writers on hot keys: every acknowledged write is in the store, also after a reopen
+
+func TestC13ConcurrentWriters(t *testing.T) {
+	rec := vt.For("C13")
+	rec.Rule("concurrent writers: 2-16 goroutines each apply a drawn list of credit movements (AddNodeBalance / AddAccountBalance, amounts up to 2^128, both signs) to 1-3 hot keys of an on-disk badger store at the same time (optimistic transactions conflict and are re-run); an operation that returned nil is acknowledged; oracle: every balance equals the sum of the acknowledged amounts (additions commute, so the sum is schedule-independent), immediately and after close + reopen; non-trivial = >=2 writers on one key; distinct by writers + op lists")
+	defer vt.Watch("TestC13ConcurrentWriters", 120*time.Second)()
+	rapid.Check(t, func(rt *rapid.T) {
+		dir := tempDir("c13-writers-")
+		defer removeAll(dir)
+		st := mustOpenBadger(rt, dir)
+		closed := false
+		defer func() {
+			if !closed {
+				st.Close()
+			}
+		}()
+		nKeys := rapid.IntRange(1, 3).Draw(rt, "keys")
+		nodes := []store.NodeID{}
+		for i := 0; i < nKeys; i++ {
+			id := store.NodeID(fmt.Sprintf("n%d", i))
+			st.SetNode(store.Node{ID: id, LastSeen: time.Now()})
+			nodes = append(nodes, id)
+		}
+		// one of the nodes belongs to a wallet: its credit lands on the account
+		if rapid.Bool().Draw(rt, "linked") {
+			if err := st.AddAccountNode("W0", nodes[0]); err != nil {
+				rt.Fatalf("link: %v", err)
+			}
+		}
+		type wop struct {
+			acct bool
+			key  int
+			amt  *big.Int
+		}
+		writers := rapid.IntRange(2, 16).Draw(rt, "writers")
+		plans := make([][]wop, writers)
+		var sig []string
+		for w := range plans {
+			n := rapid.IntRange(1, 12).Draw(rt, "ops")
+			for j := 0; j < n; j++ {
+				amt, _ := new(big.Int).SetString(rapid.SampledFrom([]string{"1", "-1", "1000", "-999", "18446744073709551616", "340282366920938463463374607431768211456", "-340282366920938463463374607431768211455"}).Draw(rt, "amount"), 10)
+				plans[w] = append(plans[w], wop{acct: rapid.IntRange(0, 3).Draw(rt, "onAccount") == 0, key: rapid.IntRange(0, nKeys-1).Draw(rt, "key"), amt: amt})
+			}
+			sig = append(sig, fmt.Sprint(len(plans[w])))
+		}
+		var mu sync.Mutex
+		wantNode := map[store.NodeID]*big.Int{}
+		wantAcct := map[store.Account]*big.Int{}
+		acked, refused := 0, 0
+		var refusedText string
+		var wg sync.WaitGroup
+		start := make(chan struct{})
+		for w := range plans {
+			wg.Add(1)
+			go func(plan []wop) {
+				defer wg.Done()
+				<-start
+				for _, o := range plan {
+					var err error
+					acct := store.Account(fmt.Sprintf("W%d", o.key))
+					if o.acct {
+						err = st.AddAccountBalance(acct, o.amt)
+					} else {
+						err = st.AddNodeBalance(nodes[o.key], o.amt)
+					}
+					mu.Lock()
+					if err != nil {
+						refused++
+						refusedText = err.Error()
+					} else {
+						acked++
+						if o.acct {
+							if wantAcct[acct] == nil {
+								wantAcct[acct] = new(big.Int)
+							}
+							wantAcct[acct].Add(wantAcct[acct], o.amt)
+						} else {
+							if wantNode[nodes[o.key]] == nil {
+								wantNode[nodes[o.key]] = new(big.Int)
+							}
+							wantNode[nodes[o.key]].Add(wantNode[nodes[o.key]], o.amt)
+						}
+					}
+					mu.Unlock()
+				}
+			}(plans[w])
+		}
+		close(start)
+		wg.Wait()
+		vt.Tick("C13 writers done")
+		total := new(big.Int)
+		for _, v := range wantNode {
+			total.Add(total, v)
+		}
+		for _, v := range wantAcct {
+			total.Add(total, v)
+		}
+		verify := func(when string) {
+			s, err := st.Stats()
+			if err != nil {
+				rt.Fatalf("%s: Stats: %v", when, err)
+			}
+			if s.TotalCredit.Cmp(total) != 0 {
+				rt.Fatalf("%s: the ledger holds %s in total, the %d acknowledged movements of %d concurrent writers sum to %s (%d were refused: %q): an acknowledged write is missing or a refused one was applied", when, s.TotalCredit.String(), acked, writers, total, refused, refusedText)
+			}
+			// per key: a node's credit is on its account when it is linked
+			for i, id := range nodes {
+				b, err := st.GetNodeBalance(id)
+				if err != nil {
+					rt.Fatalf("%s: GetNodeBalance: %v", when, err)
+				}
+				want := new(big.Int)
+				if v := wantNode[id]; v != nil {
+					want.Add(want, v)
+				}
+				acct := store.Account(fmt.Sprintf("W%d", i))
+				if b.Account == acct {
+					if v := wantAcct[acct]; v != nil {
+						want.Add(want, v)
+					}
+				}
+				if b.Credit.Cmp(want) != 0 {
+					rt.Fatalf("%s: balance of %s (account %q) is %s, the acknowledged movements sum to %s", when, id, b.Account, b.Credit.String(), want)
+				}
+			}
+		}
+		verify("after the writers finished")
+		if err := st.Close(); err != nil {
+			rt.Fatalf("close: %v", err)
+		}
+		closed = true
+		st = mustOpenBadger(rt, dir)
+		closed = false
+		verify("after close and reopen")
+		rec.Case(fmt.Sprintf("writers|%d|%d|%v", writers, nKeys, sig), true, []string{"writers", fmt.Sprintf("writers:refused=%v", refused > 0)}, func() interface{} {
+			return map[string]interface{}{"kind": "concurrent writers on hot keys", "writers": writers, "hot_keys": nKeys, "acknowledged": acked, "refused": refused, "ledger_total": total.String()}
+		})
+	})
+}
+
+// ---------------------------------------------------------------------------
 // 4. migrations
 
 func dumpKeys(rt *rapid.T, dir string) map[string]string {
